@@ -69,10 +69,12 @@ class Unit:
         self.trait_methods = {}     # trait name -> set of methods emitted
         self.table = []             # (line_lo, line_hi, obligation, origin, kind)
         self.functions = []         # dicts for evidence
+        self.assumed = []           # contracts assumed here, proved in another unit
         self.skipped = []           # (anchor, reason)
         self.struct_names = None    # None = all
         self.drop_traits = set()
         self.free_fns = []          # (module, name)
+        self.assume_pred = None     # (im, f) -> True: emit the contract only (external_body); proved in its home unit
         self.trait_extras = {}      # trait -> dict(decl_items, requires{method: [..]}, impl_items(im) -> text)
 
     # ------------------------------------------------------------------
@@ -138,7 +140,10 @@ class Unit:
             k = lo
             while t[k].text != 'struct':
                 k += 1
-            add('pub ' + src.render(k, hi, {}) + '\n')
+            stxt = src.render(k, hi, {})
+            # rule R15: private fields (Basis2/Basis3 `mat`) are made `pub` so that contracts may mention them
+            stxt = re.sub(r'(?m)^(\s*)(?!pub\b)([a-z_][a-z0-9_]*\s*:)', r'\1pub \2', stxt)
+            add('pub ' + stxt + '\n')
         # ---- collect impls
         chosen = []
         for im in src.impls:
@@ -488,22 +493,27 @@ class Unit:
         quals = [q for q in f.quals if q in ('pub',)]
         c = self.bind_params(c, f)
         sig = self.fn_decl(f, c, ret_name=c.ret)
-        body = src.body_text(f, self.subst)
-        body = self.rewrite_body(body, c, f)
+        assumed = bool(self.assume_pred and self.assume_pred(im, f))
+        if assumed:
+            body = '{ unimplemented!() }'
+        else:
+            body = src.body_text(f, self.subst)
+            body = self.rewrite_body(body, c, f)
         spec = ''
         if c.requires:
             spec += '\n' + indent + '    requires ' + ', '.join(c.requires) + ','
         if c.ensures:
             spec += '\n' + indent + '    ensures ' + ', '.join(c.ensures) + ','
-        text = indent + ' '.join(quals + [sig]) + spec + '\n' + indent + body + '\n'
+        mark = (indent + '#[verifier::external_body] // ASSUMED-CONTRACT: proved in the unit that owns this function\n') if assumed else ''
+        text = mark + indent + ' '.join(quals + [sig]) + spec + '\n' + indent + body + '\n'
         lo = line0
         hi = line0 + text.count('\n') - 1
         name = self.obligation_name(im, f)
         origin = 'src/%s.rs' % f.module.split('::')[0]
         if is_default:
             origin = 'src/%s.rs (trait default copied into impl, rule R2)' % f.module
-        self.table.append((lo, hi, name, origin, 'fn'))
-        self.functions.append({'anchor': name, 'origin': origin, 'body_sha256_16': src.body_hash(f),
+        self.table.append((lo, hi, name, origin, 'assumed' if assumed else 'fn'))
+        (self.assumed if assumed else self.functions).append({'anchor': name, 'origin': origin, 'body_sha256_16': src.body_hash(f),
                                'expansion_line': src.line_of(f.sig[0]),
                                'requires': c.requires, 'ensures': c.ensures, 'tags': list(c.tags)})
         return text
@@ -512,6 +522,13 @@ class Unit:
     def rewrite_body(self, body, c: Contract, f: Fn):
         from rules import apply_body_rules
         body = apply_body_rules(body, self, c, f)
+        # rule R3: a parameter of the generic angle type `A: Into<Rad<S>>` is converted with an explicit target type
+        if 'A' in self.subst:
+            _, _, params, _, _ = self.src.fn_sig_parts(f, {})
+            for prm in params:
+                m = re.fullmatch(r'(?:mut\s+)?([A-Za-z_][A-Za-z0-9_]*)\s*:\s*A', prm.strip())
+                if m:
+                    body = re.sub(r'\b%s\.into\(\)' % m.group(1), '<%s as Into<Rad<Sc>>>::into(%s)' % (self.subst['A'], m.group(1)), body)
         if c.closures:
             body = annotate_closures(body, c.closures, f)
         if c.pre:
